@@ -70,8 +70,12 @@ func (t *Dense) Filled(val ...interface{}) (interface{}, error) {
 		sliceList := t.FlatMaskedContiguous()
 
 		for i := range sliceList {
-			tt, err := tc.Slice(nil, sliceList[i])
-			if err != nil {
+			sl := []Slice{nil, sliceList[i]}
+			if tc.IsColVec() {
+				sl = sl[1:]
+			}
+			tt, err := tc.Slice(sl...)
+			if err == nil {
 				ts := tt.(*Dense)
 				ts.Memset(fillval)
 			}
@@ -105,8 +109,12 @@ func (t *Dense) FilledInplace(val ...interface{}) (interface{}, error) {
 		sliceList := t.FlatMaskedContiguous()
 
 		for i := range sliceList {
-			tt, err := t.Slice(nil, sliceList[i])
-			if err != nil {
+			sl := []Slice{nil, sliceList[i]}
+			if t.IsColVec() {
+				sl = sl[1:]
+			}
+			tt, err := t.Slice(sl...)
+			if err == nil {
 				ts := tt.(*Dense)
 				ts.Memset(fillval)
 			}
